@@ -28,7 +28,7 @@ template <unsigned NB, bool MEMO> int run(const std::string& op) {
   unsigned k = arg("in_k"); if (A.count("in_kh")) g_hash[k] = arg("in_kh");
   for (unsigned b = 0; b < NB; b++) for (unsigned i = lo[b]; i < hi[b]; i++)
     if (table_hash{}(key[i]) % NB != b) { puts("inconsistent inputs (bucket)"); return 2; }
-  M m;
+  M& m = *new M;     // never destroyed: the destructor requires a quiescent map without marked nodes
   std::vector<node*> nd(NP, nullptr);
   for (unsigned i = 0; i < L + 2; i++) nd[i] = new node(table_hash{}(key[i]), key[i], val[i]);
   for (unsigned b = 0; b < NB; b++) {
